@@ -2060,6 +2060,7 @@ struct Gen {
         push(op, d);
     }
     double json_rate = 0.0; // C14: share of queries that ask for the JSON result
+    int64_t min_samples = 0; // lower bound on the next utterances' length (0: none)
     bool after_prelude = false; // C07: the probe follows a whole-utterance prelude (see the C07 profile)
     bool builds_lattices = false; // C08: the probe's lattice is compared, so the word beam stays at its default or narrower as in C11/C12
     double lat_rate = 0.0; // C11/C12 (and C08's probe): share of queries that are lattice / N-best / posterior requests
@@ -2210,6 +2211,8 @@ struct Gen {
             }
         }
         last_full = full;
+        if (min_samples > 0 && sig.geti("n") < min_samples) // (the channel wraps around: a recording plays on from its start)
+            sig.set("n", (long long)(min_samples + (int64_t)r.below(7000)));
         last_sig = sig;
         last_lng = lng;
         last_prefer = prefer;
@@ -2579,9 +2582,11 @@ struct DecWorld : World {
                 fresh.push_back("zq" + w);
             }
             auto pron = [&](int n) {
-                std::string p;
+                std::string p = r.chance(0.06) ? (r.chance(0.5) ? " " : "\t ") : "";
                 for (int k = 0; k < n; ++k)
                     p += (k ? (r.chance(0.1) ? "  " : " ") : "") + r.pick(L.phones);
+                if (r.chance(0.1)) // blanks after the last phone: one, several, a line end
+                    p += r.pick(std::vector<std::string> { " ", "  ", " \n", "\r\n", "\t", "   " });
                 return p;
             };
             int nops = (int)r.range(4, 30);
@@ -2722,9 +2727,17 @@ struct DecWorld : World {
                 static const std::vector<std::string> bits = { "\"", "\\", "say\"hi\\", "a\"b", "\\n", "\x01", "\x1f", "\xc3\xa9", "\xe2\x82\xac", "caf\xc3\xa9", "{}", "[", "\"}", "\\\"", "tab\\t", "/", "\x7f" };
                 int n = (int)r.range(1, 3);
                 for (int i = 0; i < n; ++i) {
-                    std::string w = r.chance(0.5) ? r.pick(bits) : r.pick(L.vocab).substr(0, 3) + r.pick(bits) + (r.chance(0.5) ? r.pick(bits) : "");
+                    std::string pre = r.pick(L.vocab).substr(0, 3);
+                    for (unsigned char ch : pre)
+                        if (ch >= 0x80) { // (a cut through a multi-byte character would make the spelling invalid UTF-8)
+                            pre = "ab";
+                            break;
+                        }
+                    std::string w = r.chance(0.5) ? r.pick(bits) : pre + r.pick(bits) + (r.chance(0.5) ? r.pick(bits) : "");
+                    if (r.chance(0.35)) // every control byte has its own escape: any of 0x01..0x1f (none is white space to the text splitter but 9,10,13,32)
+                        w = std::string(1, (char)('a' + r.below(26))) + "q" + std::string(1, (char)r.pick(std::vector<int> { 1, 2, 7, 8, 11, 12, 14, 15, 16, 17, 26, 27, 30, 31 })) + "z"; // (ASCII around it: spellings stay valid UTF-8)
                     std::string ph;
-                    int np = (int)r.range(1, 4);
+                    int np = (int)(r.chance(0.2) ? r.range(9, 14) : r.range(1, 4)); // long words: many phone and state entries in one word
                     for (int q = 0; q < np; ++q)
                         ph += (q ? " " : "") + r.pick(L.phones);
                     Json ao = Json::object();
@@ -2787,6 +2800,15 @@ struct DecWorld : World {
             g.allow_align = false;
             grammar::set_convergence_bias(prop == "C01");
             int nu = (int)r.weighted({ 0, 60, 30, 10 });
+            if (prop == "C03" && r.chance(0.15)) {
+                // a first utterance of more than 256 frames passed as a whole: it enlarges the decoder's cepstrum buffer for good;
+                // the following ones are then streamed in pieces of 248-260 frames or in one piece
+                g.min_samples = 41200;
+                g.utterance(0, t, true, false, false, true, 48000, 0.0, false, r.chance(0.2));
+                g.min_samples = r.chance(0.5) ? 40000 : 0;
+                g.after_prelude = true;
+                nu = std::max(nu, 1);
+            }
             for (int u = 0; u < nu; ++u)
                 g.utterance(0, t, u == 0 || r.chance(0.6), false, r.chance(0.15), r.chance(0.1), 48000, r.chance(0.7) ? 0.35 : 0.0, prop == "C03" || r.chance(0.3), r.chance(0.2));
             grammar::set_convergence_bias(false);
